@@ -22,6 +22,10 @@ a file no declared ancestor produces.  The block kinds cover the mechanisms name
   run      run_target / alias_target / test(depends:) on generated data
   conf     configure_file (configuration / command) headers, custom_target with feed/capture
   subproj  subproject exporting a dependency with generated header + library
+  unity    unity build (unity_size 2, several unity files per language) of a mixed C + C++ target with generated
+           sources (custom_target and generator()) in each language and a generated header they include:
+           per-target override (generated sources listed last / first), -Dunity=subprojects in a subproject,
+           static library + executable
   pair     wayland-scanner style proto.c / proto.h from two DIFFERENT steps, the generated .c includes the
            generated .h: source listed before / after the header, header via declare_dependency(sources:),
            generator()-produced .c including a custom_target header (both orders)
@@ -41,12 +45,12 @@ from pathlib import Path
 
 from . import projgen
 
-KINDS = ('hdr', 'dep', 'gen', 'chain', 'tool', 'link', 'script', 'ctlib', 'run', 'conf', 'subproj', 'pair')
+KINDS = ('hdr', 'dep', 'gen', 'chain', 'tool', 'link', 'script', 'ctlib', 'run', 'conf', 'subproj', 'pair', 'unity')
 # rough number of build statements a block contributes (used to keep graphs explorable)
 WEIGHT = {'hdr': 8, 'dep': 8, 'gen': 11, 'chain': 8, 'tool': 15, 'link': 20, 'script': 7, 'ctlib': 7, 'run': 7,
-          'conf': 7, 'subproj': 7, 'pair': 7}
+          'conf': 7, 'subproj': 7, 'pair': 7, 'unity': 16}
 VARIANTS = {'hdr': 5, 'dep': 3, 'gen': 2, 'chain': 2, 'tool': 3, 'link': 2, 'script': 1, 'ctlib': 1, 'run': 1,
-            'conf': 1, 'subproj': 2, 'pair': 5}
+            'conf': 1, 'subproj': 2, 'pair': 5, 'unity': 4}
 
 GEN_SH = r"""#!/bin/sh
 # usage: gen.sh [-i HEADER]... [-r FILE]... [-x PROG]... INPUT OUTPUT...
@@ -73,7 +77,7 @@ for o in "$@"; do
   id=$(printf %s "$stem" | tr -c 'A-Za-z0-9' '_')
   up=$(printf %s "$id" | tr 'a-z' 'A-Z')
   case "$o" in
-    *.c) printf '%s/* %s */\nint %s_fn(void) { return 0; }\n' "$inc" "$acc" "$id" > "$o" || exit 6;;
+    *.c|*.cpp) printf '%s/* %s */\nint %s_fn(void) { return 0; }\n' "$inc" "$acc" "$id" > "$o" || exit 6;;
     *.h) printf '/* %s */\n#define %s_VALUE 1\n' "$acc" "$up" > "$o" || exit 6;;
     *.map) printf '/* %s */\n{ global: *; };\n' "$acc" > "$o" || exit 6;;
     *) { echo "$acc"; cat "$in"; } > "$o" || exit 6;;
@@ -330,6 +334,48 @@ def _block(w: _W, b: T.Dict[str, T.Any]) -> None:
         w.line('', f"{p}_sp = subproject('{sp}')")
         F(f'{p}_main.c', _main_c([f'{p}_sp.h'], [f'{p}_splib'], f'{P}_SP_VALUE - 1 + {p}_splib()'))
         L(f"{p}_exe = executable('{p}_exe', '{p}_main.c', dependencies: {p}_sp.get_variable('{p}_dep'))")
+    elif kind == 'unity':
+        # v2: the whole group lives in a subproject and the project is configured with -Dunity=subprojects
+        if v == 2:
+            sp = f'{p}sp'
+            ud = f'subprojects/{sp}'
+            w.file(ud, 'gen.sh', GEN_SH, 0o755)
+            w.lines[ud] = [f"project('{sp}', 'c', 'cpp', version: '1.0')", "gen = find_program('gen.sh')"]
+            w.line('', f"{p}_sp = subproject('{sp}')")
+            over = ''
+        else:
+            ud = d
+            w.line(ud, "add_languages('cpp', native: false)")
+            over = ", override_options: ['unity=on', 'unity_size=2']"
+        U = lambda text: w.line(ud, text)  # noqa: E731
+        UF = lambda name, text: w.file(ud, name, text)  # noqa: E731
+        for nm in ('h', 'cc', 'cx', 'g1', 'g2'):
+            UF(f'{p}_{nm}.in', f'{nm} {p}\n')
+        U(f"{p}_h = custom_target('{p}_h', input: '{p}_h.in', output: '{p}_gen.h', command: {GEN})")
+        U(f"{p}_cc = custom_target('{p}_cc', input: '{p}_cc.in', output: '{p}_one.c', command: [gen, '-i', '{p}_gen.h', '@INPUT@', '@OUTPUT@'])")
+        U(f"{p}_cx = custom_target('{p}_cx', input: '{p}_cx.in', output: '{p}_greeter.cpp', command: [gen, '-i', '{p}_gen.h', '@INPUT@', '@OUTPUT@'])")
+        U(f"{p}_gc = generator(gen, output: '@BASENAME@.c', arguments: ['@INPUT@', '@OUTPUT@'])")
+        U(f"{p}_gx = generator(gen, output: '@BASENAME@.cpp', arguments: ['-i', '{p}_gen.h', '@INPUT@', '@OUTPUT@'])")
+        cfn = [f'{p}_a', f'{p}_b', f'{p}_c']
+        xfn = [f'{p}_x', f'{p}_y']
+        for fn_ in cfn:
+            UF(f'{fn_}.c', _fn_c(fn_, [f'{p}_gen.h'] if fn_.endswith('_a') else [], expr=f'{P}_GEN_VALUE - 1' if fn_.endswith('_a') else '0'))
+        for fn_ in xfn:
+            UF(f'{fn_}.cpp', _fn_c(fn_, [f'{p}_gen.h'] if fn_.endswith('_x') else []))
+        cdecl = ''.join(f'int {f}(void);\n' for f in cfn + [f'{p}_one_fn', f'{p}_g1_fn'])
+        xdecl = ''.join(f'int {f}(void);\n' for f in xfn + [f'{p}_greeter_fn', f'{p}_g2_fn'])
+        calls = ' + '.join(f'{f}()' for f in cfn + xfn + [f'{p}_one_fn', f'{p}_g1_fn', f'{p}_greeter_fn', f'{p}_g2_fn'])
+        plain = [f"'{f}.c'" for f in cfn] + [f"'{f}.cpp'" for f in xfn]
+        generated = [f'{p}_cc', f'{p}_cx', f"{p}_gc.process('{p}_g1.in')", f"{p}_gx.process('{p}_g2.in')", f'{p}_h']
+        srcs = generated + plain if v == 1 else plain + generated
+        if v == 3:
+            UF(f'{p}_main.cpp', f'extern "C" {{\n{cdecl}}}\n{xdecl}int main() {{ return {calls}; }}\n')
+            U(f"{p}_lib = static_library('{p}_lib', {', '.join(srcs)}{over})")
+            U(f"{p}_exe = executable('{p}_exe', '{p}_main.cpp', link_with: {p}_lib)")
+        else:
+            UF(f'{p}_main.cpp', f'extern "C" {{\n{cdecl}}}\n{xdecl}int main() {{ return {calls}; }}\n')
+            U(f"{p}_exe = executable('{p}_exe', '{p}_main.cpp', {', '.join(srcs)}{over})")
+
     elif kind == 'pair':
         F(f'{p}_c.in', f'c {p}\n')
         F(f'{p}_h.in', f'h {p}\n')
@@ -382,7 +428,12 @@ def write(p: T.Dict[str, T.Any], srcdir: T.Union[str, os.PathLike]) -> None:
 
 def setup_args(p: T.Dict[str, T.Any]) -> T.List[str]:
     o = p['opts']
-    return [f"-Ddefault_library={o['default_library']}", f"-Dunity={o['unity']}", f"-Dbuildtype={o['buildtype']}"]
+    unity = o['unity']
+    extra = []
+    if any(b['kind'] == 'unity' and b.get('v', 0) == 2 for b in p['blocks']):
+        unity = 'subprojects'
+        extra = ['-Dunity_size=2']
+    return [f"-Ddefault_library={o['default_library']}", f"-Dunity={unity}", f"-Dbuildtype={o['buildtype']}"] + extra
 
 
 def block_of(path: str) -> str:
@@ -406,7 +457,7 @@ def random_shape(rnd: random.Random, max_weight: int = 26, must: T.Optional[str]
             continue
         if len(blocks) >= 3:
             break
-        blocks.append({'kind': k, 'n': len(blocks) + 1, 'sub': k not in ('subproj',) and rnd.random() < 0.4,
+        blocks.append({'kind': k, 'n': len(blocks) + 1, 'sub': k not in ('subproj', 'unity') and rnd.random() < 0.4,
                        'v': rnd.randrange(VARIANTS[k])})
         weight += WEIGHT[k]
         if rnd.random() < 0.35:
